@@ -768,13 +768,20 @@ theorem items_stream (wi tb : Nat) (w : Worker) :
   simp only [segSteps, stepItems_cons_put, this, segSteps_append, stepItems_append, stepItems_segSteps_puts]
   rfl
 
+theorem testEvents_owner (wi j : Nat) (t : WTest) : ∀ e ∈ testEvents wi j t, e.w = wi := by
+  intro e h
+  unfold testEvents at h
+  split at h
+  · obtain ⟨ne, _, rfl⟩ := List.mem_map.mp h; rfl
+  · simp only [List.mem_cons, List.not_mem_nil, or_false] at h
+    rcases h with rfl | rfl <;> rfl
+
 theorem testsEvents_owner (wi : Nat) : ∀ (ts : List WTest) (j : Nat), ∀ e ∈ testsEvents wi j ts, e.w = wi
   | [], _, e, h => by simp [testsEvents] at h
   | t :: ts, j, e, h => by
-      simp only [testsEvents, List.mem_cons] at h
-      rcases h with rfl | rfl | h
-      · rfl
-      · rfl
+      simp only [testsEvents, List.mem_append] at h
+      rcases h with h | h
+      · exact testEvents_owner wi j t e h
       · exact testsEvents_owner wi ts (j + 1) e h
 
 theorem fileEvents_owner (wi : Nat) : ∀ (n : Nat), ∀ e ∈ fileEvents wi n, e.w = wi
